@@ -191,18 +191,41 @@ def gen_flags(rng, pool, kmax=3):
 
 
 def gen_history(rng, stream, nops):
-    """stream: clean | twins | junk | samecopy | examine"""
+    """stream: clean | twins | junk | samecopy | examine | nospam (Spam renamed / deleted / re-created around Junk STOREs)"""
     if stream == "clean":
         pool = SYS + CLEAN_KW + ["\\Recent"]
     elif stream == "twins":
         pool = SYS + KEYWORDS + CASE_TWINS + ["\\Recent"]
     else:
         pool = SYS + CLEAN_KW + ["\\Recent"]
-    store_pool = pool + (JUNKS + ["$NotJunk"] if stream == "junk" else [])
+    store_pool = pool + (JUNKS + ["$NotJunk"] if stream in ("junk", "nospam") else [])
     cnt = {m: 0 for m in MB.values()}
+    alive = set(MB.values())       # model ids of the mailboxes that exist
+    spam = MB["Spam"]              # model id of the mailbox named Spam, None if there is none
+    next_id = 6
+    renames = 0
     h = []
     sel, ro = None, False
     used = set()
+
+    def drop_spam():
+        nonlocal spam, renames
+        delete = rng.random() < 0.4
+        renames += 1
+        h.append({"k": "dropspam", "delete": delete, "newname": "JunkMail%d" % renames})
+        if delete:
+            alive.discard(spam)
+            used.discard(spam)
+        spam = None
+
+    def create_spam():
+        nonlocal spam, next_id
+        h.append({"k": "createspam", "id": next_id})
+        spam = next_id
+        alive.add(spam)
+        cnt[spam] = 0
+        used.add(spam)
+        next_id += 1
     for i in range(rng.randint(3, 5)):
         mb = MB["INBOX"] if (i < 3 or rng.random() < 0.5) else rng.choice(list(MB.values()))
         fl = gen_flags(rng, pool + (JUNKS if stream in ("junk", "twins") else []))
@@ -211,10 +234,19 @@ def gen_history(rng, stream, nops):
         used.add(mb)
     h.append({"k": "select", "mb": MB["INBOX"], "ro": False})
     sel = MB["INBOX"]
+    if stream == "nospam" and rng.random() < 0.7:
+        drop_spam()
     for _ in range(nops):
         r = rng.random()
+        pm = 0.18 if stream == "nospam" else 0.02
+        if rng.random() < pm:
+            if spam is None:
+                create_spam()
+            elif sel != spam:
+                drop_spam()
+            continue
         if r < 0.12:
-            mb = rng.choice([m for m in MB.values() if cnt[m] > 0] or [MB["INBOX"]])
+            mb = rng.choice([m for m in sorted(alive) if cnt[m] > 0] or [MB["INBOX"]])
             want_ro = rng.random() < (0.6 if stream == "examine" else 0.25)
             h.append({"k": "select", "mb": mb, "ro": want_ro})
             sel, ro = mb, want_ro
@@ -225,8 +257,8 @@ def gen_history(rng, stream, nops):
             item = rng.choice(ITEMS)
             silent = rng.random() < 0.3
             new = gen_flags(rng, store_pool)
-            if stream == "junk" and rng.random() < 0.5 and item != "-FLAGS":
-                new.append(rng.choice(JUNKS))
+            if stream in ("junk", "nospam") and rng.random() < (0.5 if stream == "junk" else 0.7) and item != "-FLAGS":
+                new.insert(rng.randint(0, len(new)), rng.choice(JUNKS if stream == "junk" else ["Junk", "Junk", "NonJunk"]))
             if rng.random() < 0.08:
                 new.insert(rng.randint(0, len(new)), rng.choice(BAD_FLAGS + ["a{b"]))
             raw = item + (".SILENT" if silent else "")
@@ -235,7 +267,7 @@ def gen_history(rng, stream, nops):
             h.append({"k": "store", "uid": uidmode, "ro": ro, "silent": silent, "mb": sel, "set": gen_set(rng, cnt[sel], uidmode),
                       "item": item, "raw": raw, "new": new, "paren": not (len(new) == 1 and rng.random() < 0.3)})
         elif r < 0.77:
-            others = [m for m in MB.values() if m != sel]
+            others = [m for m in sorted(alive) if m != sel]
             dest = sel if rng.random() < (0.7 if stream == "samecopy" else 0.15) else rng.choice(others)
             uidmode = rng.random() < 0.5
             s = gen_set(rng, cnt[sel], uidmode)
@@ -243,7 +275,7 @@ def gen_history(rng, stream, nops):
             cnt[dest] += 1
             used.add(dest)
         elif r < 0.9:
-            mb = rng.choice(list(MB.values())) if rng.random() < 0.4 else sel
+            mb = rng.choice(sorted(alive)) if rng.random() < 0.4 else sel
             afl = gen_flags(rng, pool)
             bad = rng.random() < 0.08
             if bad:
@@ -260,7 +292,7 @@ def gen_history(rng, stream, nops):
     keys = rng.sample(SEARCH_KEYS, 5)
     kws = [rng.choice(store_pool + ["Junk", "Seen", "\\Seenish", "\\seen"]) for _ in range(3)]
     keys += [("KEYWORD " + kws[0], "has", kws[0]), ("UNKEYWORD " + kws[1], "not", kws[1]), ("keyword " + kws[2], "has", kws[2])]
-    return {"stream": stream, "h": h, "keys": keys, "mailboxes": sorted(used | {MB["INBOX"], MB["Spam"]})}
+    return {"stream": stream, "h": h, "keys": keys, "mailboxes": sorted((used | {MB["INBOX"]} | ({spam} if spam else set())) & alive)}
 
 
 def body_of(i):
@@ -286,23 +318,36 @@ def driver_ops(sc):
     send("A", "LOGIN u@example.com pw", None)
     sel = None
     nmsg = 0
+    names = dict(MBN)            # model id -> current name
     for si, o in enumerate(sc["h"]):
         k = o["k"]
         if k == "select":
-            send("A", "%s %s" % ("EXAMINE" if o["ro"] else "SELECT", MBN[o["mb"]]), None)
+            send("A", "%s %s" % ("EXAMINE" if o["ro"] else "SELECT", names[o["mb"]]), None)
             sel = o["mb"]
             continue
-        if k == "append":
+        if k == "dropspam":
+            sp = [i for i, n in names.items() if n == "Spam"]
+            send("A", "DELETE Spam" if o["delete"] else "RENAME Spam %s" % o["newname"], None)
+            for i in sp:
+                if o["delete"]:
+                    del names[i]
+                else:
+                    names[i] = o["newname"]
+        elif k == "createspam":
+            send("A", "CREATE Spam", None)
+            if "Spam" not in names.values():
+                names[o["id"]] = "Spam"
+        elif k == "append":
             nmsg += 1
             body = body_of(nmsg)
             tg = tag()
             fl = ("(%s) " % " ".join(o["fl"])) if (o["paren"] or o["fl"]) else ""
             if o.get("litplus"):
                 # non-synchronizing literal: line and data in one write, the reply is tagged either way
-                ops.append({"op": "send", "conn": "A", "data": "%s APPEND %s %s{%d+}\r\n%s\r\n" % (tg, MBN[o["mb"]], C.latin(fl.encode("latin-1")), len(body), body), "until": "tag:" + tg})
+                ops.append({"op": "send", "conn": "A", "data": "%s APPEND %s %s{%d+}\r\n%s\r\n" % (tg, names[o["mb"]], C.latin(fl.encode("latin-1")), len(body), body), "until": "tag:" + tg})
                 plan.append(None)
             else:
-                ops.append({"op": "send", "conn": "A", "data": "%s APPEND %s %s{%d}\r\n" % (tg, MBN[o["mb"]], fl, len(body)), "until": "cont:" + tg})
+                ops.append({"op": "send", "conn": "A", "data": "%s APPEND %s %s{%d}\r\n" % (tg, names[o["mb"]], fl, len(body)), "until": "cont:" + tg})
                 plan.append(None)
                 ops.append({"op": "send", "conn": "A", "data": body + "\r\n", "until": "tag:" + tg})
                 plan.append(None)
@@ -310,7 +355,7 @@ def driver_ops(sc):
             fl = " ".join(o["new"])
             send("A", "%sSTORE %s %s %s" % ("UID " if o["uid"] else "", set_text(o["set"]), o["raw"], "(%s)" % fl if o["paren"] else fl), None)
         elif k == "copy":
-            send("A", "%sCOPY %s %s" % ("UID " if o.get("uid", True) else "", set_text(o["set"]), MBN[o["dest"]]), None)
+            send("A", "%sCOPY %s %s" % ("UID " if o.get("uid", True) else "", set_text(o["set"]), names[o["dest"]]), None)
         elif k == "expunge":
             send("A", o["how"], None)
             if o["how"] == "CLOSE":
@@ -324,11 +369,11 @@ def driver_ops(sc):
     plan.append(None)
     send("B", "LOGIN u@example.com pw", None)
     for mi, mb in enumerate(sc["mailboxes"]):
-        send("B", "%s %s" % ("EXAMINE" if mi % 2 else "SELECT", MBN[mb]), ("first", mb))
+        send("B", "%s %s" % ("EXAMINE" if mi % 2 else "SELECT", names[mb]), ("first", mb))
         send("B", "FETCH 1:* (UID FLAGS)", ("fview", mb))
         for ki, (txt, _, _) in enumerate(sc["keys"]):
             send("B", "SEARCH " + txt, ("search", mb, ki))
-        send("B", "STATUS %s (MESSAGES UNSEEN)" % MBN[mb], ("status", mb))
+        send("B", "STATUS %s (MESSAGES UNSEEN)" % names[mb], ("status", mb))
     return ops, plan
 
 
@@ -402,6 +447,10 @@ def coq_op(o):
         return "(OAppend %s %s)" % (cz(o["mb"]), coq_strs(o["fl"]))
     if k == "expunge":
         return "(OExpunge %s %s)" % (C.coq_bool(o["ro"]), cz(o["mb"]))
+    if k == "dropspam":
+        return "(ODropSpam %s)" % C.coq_bool(o["delete"])
+    if k == "createspam":
+        return "(OCreateSpam %s)" % cz(o["id"])
     raise ValueError(k)
 
 
@@ -457,7 +506,7 @@ def describe(sc):
 
 def suite_sessions(chk, body_parts, post):
     nsc = 60 if chk.tier == "quick" else 900
-    streams = ["clean"] * 6 + ["twins"] * 2 + ["junk", "samecopy", "examine"]
+    streams = ["clean"] * 5 + ["twins"] * 2 + ["junk", "samecopy", "examine"] + ["nospam"] * 2
     scs = load_corpus()
     ncorpus = len(scs)
     for _ in range(nsc):
@@ -476,7 +525,7 @@ def suite_sessions(chk, body_parts, post):
         return False
     if nbad:
         chk.notes.append("%d session scenario(s) could not be observed (driver timeout) and were skipped" % nbad)
-    body = "Local Open Scope Z_scope.\nDefinition env0 := mkEnv 1 5.\nDefinition st0 := mkSt [] [(1,1);(2,1);(3,1);(4,1);(5,1)] 1.\n"
+    body = "Local Open Scope Z_scope.\nDefinition env0 := mkEnv 1.\nDefinition st0 := mkSt [] [(1,1);(2,1);(3,1);(4,1);(5,1)] 1 (Some 5).\n"
     body += "Definition scases : list (list sstep * list fobs) := [\n%s].\n" % ";\n".join(coq_case(sc, ob) for sc, ob in good)
     body += "Definition scodes := Eval vm_compute in map (fun c => judge env0 st0 (fst c) (snd c)) scases.\nPrint scodes.\n"
     body_parts.append(body)
